@@ -1260,6 +1260,12 @@ def e2e_cases(ctx, pid, n):
         else:
             hooks = rng.sample(cand, rng.randrange(2, 15))
         ans = [{"cls": "A0", "hooks": {x: None for x in hooks}}]
+        # generic (non-leaf) hooks are implemented by the analysis as well in half of the cases: their deliveries and
+        # their placement relative to the operands are part of the comparison
+        if rng.random() < 0.5:
+            generic = [x for x in names if x not in leaves and x not in EXEC_LEVEL]
+            for gx in rng.sample(generic, rng.randrange(1, len(generic) + 1)):
+                ans[0]["hooks"][gx] = None
         if pid == "C07":
             # one-shot overriding analysis: at occurrence k of hook h return v
             hk = rng.choice([x for x in OVERRIDABLE])
